@@ -56,9 +56,9 @@ Lemma cache_get_Some t k m c dl h : cache_get t k m c = Some (dl, h) ->
   exists e, lookup t k c = Some e /\ e_mt e = code_ms (m_mtime m) /\ e_fl e = m_len m /\ dl = e_dl e /\ h = e_h e.
 Proof.
   unfold cache_get. destruct (lookup t k c) as [e|]; [|discriminate].
-  destruct (negb (e_mt e =? code_ms (m_mtime m)) || negb (e_fl e =? m_len m)) eqn:B; [discriminate|].
+  destruct (negb (Z.eqb (e_mt e) (code_ms (m_mtime m))) || negb (e_fl e =? m_len m)) eqn:B; [discriminate|].
   intros E. injection E as <- <-. apply orb_false_iff in B. destruct B as [B1 B2].
-  apply negb_false_iff in B1, B2. apply N.eqb_eq in B1, B2. exists e. auto.
+  apply negb_false_iff in B1, B2. apply Z.eqb_eq in B1. apply N.eqb_eq in B2. exists e. auto.
 Qed.
 
 (* the map laws of get/put: an entry is served only for the same tree (algorithm AND transform
@@ -66,13 +66,13 @@ Qed.
 Lemma cache_get_put t k m c t' k' m' dl h :
   cache_get t k m (cache_put t' k' m' dl h c) =
   if tree_eqb t t' && key_eqb k k'
-  then (if (code_ms (m_mtime m') =? code_ms (m_mtime m)) && (m_len m' =? m_len m) then Some (dl, h) else None)
+  then (if Z.eqb (code_ms (m_mtime m')) (code_ms (m_mtime m)) && (m_len m' =? m_len m) then Some (dl, h) else None)
   else cache_get t k m c.
 Proof.
   unfold cache_get, cache_put. rewrite lookup_cons.
   destruct (tree_eqb t t' && key_eqb k k'); [|reflexivity].
   cbn [e_mt e_fl e_dl e_h].
-  destruct (code_ms (m_mtime m') =? code_ms (m_mtime m)); destruct (m_len m' =? m_len m); reflexivity.
+  destruct (Z.eqb (code_ms (m_mtime m')) (code_ms (m_mtime m))); destruct (m_len m' =? m_len m); reflexivity.
 Qed.
 
 Lemma tree_of_algo a tr a' tr' : tree_of a tr = tree_of a' tr' -> a = a'.
@@ -101,19 +101,27 @@ Definition mtime_determines (ws : list world) : Prop :=
   forall w1 w2 id i1 i2, In w1 ws -> In w2 ws -> inode_of w1 id = Some i1 -> inode_of w2 id = Some i2 ->
     real_ms (i_mtime i1) = real_ms (i_mtime i2) -> nlen (i_data i1) = nlen (i_data i2) -> i_data i1 = i_data i2.
 
-Definition no_preepoch (ws : list world) : Prop :=
-  forall w id i, In w ws -> inode_of w id = Some i -> (0 <= i_mtime i)%Z.
+(* every mtime before the epoch is a whole number of milliseconds: then rounding down (real_ms) and
+   rounding towards zero (code_ms) agree everywhere *)
+Definition preepoch_whole_ms (ws : list world) : Prop :=
+  forall w id i, In w ws -> inode_of w id = Some i -> (i_mtime i < 0)%Z -> (i_mtime i mod 1000000 = 0)%Z.
 
-Lemma code_ms_real t1 t2 : (0 <= t1)%Z -> (0 <= t2)%Z -> code_ms t1 = code_ms t2 -> real_ms t1 = real_ms t2.
+Lemma code_ms_real t : (0 <= t \/ t mod 1000000 = 0)%Z -> code_ms t = real_ms t.
 Proof.
-  unfold code_ms, real_ms. intros H1 H2 E.
-  apply Z2N.inj in E; auto; apply Z.div_pos; lia.
+  unfold code_ms, real_ms. intros [Hp|Hm].
+  - apply Z.quot_div_nonneg; lia.
+  - apply Z.div_exact in Hm; [|lia]. rewrite Hm at 1.
+    rewrite Z.mul_comm, Z.quot_mul; [reflexivity|lia].
 Qed.
 
-Lemma stamp_of_mtime ws : mtime_determines ws -> no_preepoch ws -> stamp_determines ws.
+Lemma stamp_of_mtime ws : mtime_determines ws -> preepoch_whole_ms ws -> stamp_determines ws.
 Proof.
   intros Hm Hp w1 w2 id i1 i2 I1 I2 E1 E2 Es El.
-  apply (Hm w1 w2 id i1 i2); auto. apply code_ms_real; eauto.
+  assert (C1 : code_ms (i_mtime i1) = real_ms (i_mtime i1)).
+  { apply code_ms_real. destruct (Z_lt_le_dec (i_mtime i1) 0) as [L|L]; [right; apply (Hp w1 id i1); auto|left; exact L]. }
+  assert (C2 : code_ms (i_mtime i2) = real_ms (i_mtime i2)).
+  { apply code_ms_real. destruct (Z_lt_le_dec (i_mtime i2) 0) as [L|L]; [right; apply (Hp w2 id i2); auto|left; exact L]. }
+  apply (Hm w1 w2 id i1 i2); auto. rewrite <- C1, <- C2. exact Es.
 Qed.
 
 Section Proofs.
@@ -132,19 +140,14 @@ Definition same_tr (t1 t2 : option tconf) : Prop :=
 Definition tree_faithful (cs : list (N * option tconf)) : Prop :=
   forall a1 t1 a2 t2, In (a1, t1) cs -> In (a2, t2) cs -> tree_of a1 t1 = tree_of a2 t2 -> same_tr t1 t2.
 
-Definition no_none_cmd (cs : list (N * option tconf)) : Prop :=
-  forall a c, In (a, Some c) cs -> t_cmd c <> none_str.
-Definition flags_irrelevant (cs : list (N * option tconf)) : Prop :=
-  forall a1 c1 a2 c2, In (a1, Some c1) cs -> In (a2, Some c2) cs -> t_cmd c1 = t_cmd c2 -> forall d, T c1 d = T c2 d.
+(* syntactic sufficient condition: configurations in use that get the same tree are the same configuration *)
+Definition no_alias (cs : list (N * option tconf)) : Prop :=
+  forall a1 t1 a2 t2, In (a1, t1) cs -> In (a2, t2) cs -> tree_of a1 t1 = tree_of a2 t2 -> t1 = t2.
 
-Lemma tree_faithful_of cs : no_none_cmd cs -> flags_irrelevant cs -> tree_faithful cs.
+Lemma tree_faithful_of cs : no_alias cs -> tree_faithful cs.
 Proof.
-  intros Hn Hf a1 t1 a2 t2 I1 I2 E. unfold tree_of in E. injection E as _ E.
-  destruct t1 as [c1|], t2 as [c2|]; cbn [same_tr].
-  - eapply Hf; eauto.
-  - exfalso. eapply Hn; eauto.
-  - exfalso. eapply Hn; eauto.
-  - exact I.
+  intros Hn a1 t1 a2 t2 I1 I2 E. rewrite (Hn a1 t1 a2 t2 I1 I2 E).
+  destruct t2; cbn [same_tr]; auto.
 Qed.
 
 (* what a correct entry for content d holds *)
